@@ -1,5 +1,8 @@
 mod engine;
 mod env;
+mod fc;
+mod fcast;
+mod fcgen;
 mod obs;
 mod props;
 mod registry;
@@ -15,6 +18,28 @@ fn main() {
   if args.is_empty() {
     eprintln!("usage: dgmc <C01..C20> [--tier quick|thorough] [--replay <file>] [--part <name>]");
     std::process::exit(2);
+  }
+  if args[0] == "fc-probe" {
+    // developer aid: print the fast-check output of a package given as files
+    let ch = engine::Ch::new(vec![], false);
+    let mut files = vec![];
+    let mut i = 1;
+    while i + 1 < args.len() {
+      files.push((args[i].clone(), std::fs::read_to_string(&args[i + 1]).unwrap()));
+      i += 2;
+    }
+    let pkg = fc::FcPackage { name: "@s/a".into(), version: "1.0.0".into(), exports: vec![(".".into(), format!(".{}", files[0].0))], files };
+    let r = fc::fast_check(&[pkg], None, &ch).unwrap();
+    for (u, (_, slot)) in &r.modules {
+      println!("=== {u}");
+      match slot {
+        fc::FcSlot::Module { text, deps, .. } => println!("{text}
+--- deps {deps}"),
+        other => println!("{other:?}"),
+      }
+    }
+    println!("graph errors: {:?}", r.graph_errors);
+    return;
   }
   let id = args[0].to_uppercase();
   let mut tier = match std::env::var("VERIF_TIER").as_deref() {
